@@ -157,6 +157,8 @@ def sym_float(x=0.0):
 def sym_round(x, *a):
     if isinstance(x, SymFloat) and not a:
         return x.to_int("round")
+    if isinstance(x, (SymInt, SymBool)) and not a:
+        return x if isinstance(x, SymInt) else x._int()      # round(int) is the int itself
     return round(x, *a)
 
 
